@@ -157,6 +157,19 @@ out.append("        _ => unreachable!(),")
 out.append("    }")
 out.append("}")
 out.append("")
+out.append("/// route 4: `t_format!` on a reactive context: the view is created once and must follow the context's locale")
+out.append("pub fn call_site_ctx(site: usize, i18n: leptos_i18n::I18nContext<Locale>, vi: usize) -> Box<dyn Fn() -> String> {")
+out.append("    // the value closure only captures Copy data, so the view closure `t_format!` builds is `Fn` (re-renderable)")
+out.append("    let vals: &'static [Val] = crate::fixture::static_values();")
+out.append("    match site {")
+for i, (kind, fmt, exp) in enumerate(sites):
+    acc = {"num": "x.num()", "cur": "x.num()", "date": "x.date()", "time": "x.time()", "dt": "x.datetime()", "list": "x.list()"}[kind]
+    acc = acc.replace("x.", "vals[vi].")
+    out.append(f"        {i} => {{ let view = t_format!(i18n, move || {acc}, formatter: {fmt}); Box::new(move || crate::fixture::render(view.clone())) }}")
+out.append("        _ => unreachable!(),")
+out.append("    }")
+out.append("}")
+out.append("")
 out.append("/// plural keys: td_string! with a count (get_plural_rules cache)")
 out.append("pub fn call_plural(ordinal: bool, locale: Locale, count: u64) -> String {")
 out.append("    if ordinal { td_string!(locale, pl_ord, count = count).to_string() } else { td_string!(locale, pl_card, count = count).to_string() }")
